@@ -10,6 +10,7 @@ it - by transformations that are each semantics-preserving ON THEIR OWN:
   N7  torch.concatenate(..)   ->  torch.cat(..) ;  x.clone() -> torch.clone(x)      (documented aliases)
   N5  t = E (t unknown to the reference, bound once, E pure, operands not modified)  ->  uses of t replaced by E
   N6  h(args) with h a new module-level helper that the reference module does not define  ->  h's body inlined (fresh names)
+  N9  a, b = e1, e2           ->  a = e1 ; b = e2     (no target occurs on the right-hand side)
   N3  t = E ; return t        ->  return E            (t assigned once, used once, adjacent statements)
       t = E ; T = t           ->  T = E               (same conditions; python evaluates the right-hand side first anyway)
   A1  consistent, injective renaming of local variables (alpha-conversion; parameters, globals and attribute names are never touched)
@@ -162,8 +163,33 @@ def _forward_temps(func):
                 break
 
 
+def _split_tuple_assigns(func):
+    """N9: a, b = e1, e2  ->  a = e1 ; b = e2   when no target name occurs in any right-hand side (not a swap) and the right-hand sides are
+    pure (their relative evaluation order is unobservable)"""
+    for p in ast.walk(func):
+        for f in ("body", "orelse", "finalbody"):
+            b = getattr(p, f, None)
+            if not isinstance(b, list):
+                continue
+            i = 0
+            while i < len(b):
+                s = b[i]
+                if isinstance(s, ast.Assign) and len(s.targets) == 1 and isinstance(s.targets[0], ast.Tuple) and isinstance(s.value, ast.Tuple) \
+                        and len(s.targets[0].elts) == len(s.value.elts) and all(isinstance(t, ast.Name) for t in s.targets[0].elts) \
+                        and not any(isinstance(v, ast.Starred) for v in s.value.elts):
+                    tn = {t.id for t in s.targets[0].elts}
+                    rn = {x.id for v in s.value.elts for x in ast.walk(v) if isinstance(x, ast.Name)}
+                    if not (tn & rn) and len(tn) == len(s.targets[0].elts):
+                        new = [ast.copy_location(ast.Assign(targets=[t], value=v, lineno=s.lineno), s) for t, v in zip(s.targets[0].elts, s.value.elts)]
+                        b[i:i + 1] = new
+                        i += len(new)
+                        continue
+                i += 1
+
+
 def normalise(func):
     _Normalise().visit(func)
+    _split_tuple_assigns(func)
     _forward_temps(func)
     ast.fix_missing_locations(func)
 
@@ -303,7 +329,7 @@ def _pure_value(e):
                 continue
             return False
         if isinstance(n, (ast.NamedExpr, ast.Yield, ast.YieldFrom, ast.Await, ast.Lambda, ast.ListComp, ast.SetComp, ast.DictComp,
-                          ast.GeneratorExp, ast.Starred)):
+                          ast.GeneratorExp)):
             return False
     return True
 
@@ -323,30 +349,33 @@ def _cast_rebinds(func):
 
 
 def _written_names(func):
-    """(name -> number of bindings, name -> number of stores through it / in-place mutations)"""
-    binds, muts = {}, {}
+    """(name -> number of bindings, name -> positions of every write: rebinding, store through the name, in-place method, augmented
+    assignment; `x = cast(x)` is not a write)"""
+    binds, pos = {}, {}
     casts = _cast_rebinds(func)
+
+    def at(nm, n):
+        pos.setdefault(nm, []).append((getattr(n, "lineno", 0), getattr(n, "col_offset", 0)))
     for n in ast.walk(func):
         if isinstance(n, ast.Name) and id(n) in casts:
             continue
         if isinstance(n, ast.Name) and isinstance(n.ctx, (ast.Store, ast.Del)):
             binds[n.id] = binds.get(n.id, 0) + 1
+            at(n.id, n)
         elif isinstance(n, (ast.Subscript, ast.Attribute)) and isinstance(n.ctx, (ast.Store, ast.Del)):
             b = n
             while isinstance(b, (ast.Subscript, ast.Attribute)):
                 b = b.value
             if isinstance(b, ast.Name):
-                muts[b.id] = muts.get(b.id, 0) + 1
-        elif isinstance(n, ast.AugAssign) and isinstance(n.target, ast.Name):
-            muts[n.target.id] = muts.get(n.target.id, 0) + 1
+                at(b.id, n)
         elif isinstance(n, ast.Call) and isinstance(n.func, ast.Attribute) and (n.func.attr.endswith("_") or n.func.attr in
                 ("append", "extend", "pop", "insert", "remove", "clear", "sort", "update", "add", "fill")):
             b = n.func.value
             while isinstance(b, (ast.Subscript, ast.Attribute)):
                 b = b.value
             if isinstance(b, ast.Name):
-                muts[b.id] = muts.get(b.id, 0) + 1
-    return binds, muts
+                at(b.id, n)
+    return binds, pos
 
 
 def inline_extra_temps(cfunc, rfunc):
@@ -373,27 +402,16 @@ def inline_extra_temps(cfunc, rfunc):
                     ops = {x.id for x in ast.walk(s.value) if isinstance(x, ast.Name)}
                     if t in ops:
                         continue
-                    if any(muts.get(o, 0) for o in ops):
-                        continue
+                    here = (s.lineno, s.col_offset)
+                    if any(w > here for o in ops for w in muts.get(o, [])):
+                        continue            # an operand is written after the definition: the uses might see another value
                     uses = [x for x in ast.walk(cfunc) if isinstance(x, ast.Name) and x.id == t and isinstance(x.ctx, ast.Load)]
-                    if not uses or any((x.lineno, x.col_offset) <= (s.lineno, s.col_offset) for x in uses):
+                    if not uses or any((x.lineno, x.col_offset) <= here for x in uses):
                         continue
-                    # the definition must dominate the uses: it sits in the function's top-level block or the uses are all in its own block's tail
+                    # operands written before the definition are fine when the definition is re-executed before every use: it sits in the
+                    # function's top-level block, or all uses are in the tail of its own block
                     tail = [x for later in b[i + 1:] for x in ast.walk(later)]
-                    rebound = any(writes.get(o, 0) > (0 if o in pr else 1) for o in ops)
-                    if (b is not cfunc.body or rebound) and not all(any(u is x for x in tail) for u in uses):
-                        continue
-                    # operands bound once must be bound before the definition (textually)
-                    late = False
-                    casts = _cast_rebinds(cfunc)
-                    for o in ops:
-                        if o in pr:
-                            continue
-                        for x in ast.walk(cfunc):
-                            if isinstance(x, ast.Name) and x.id == o and isinstance(x.ctx, ast.Store) and id(x) not in casts \
-                                    and (x.lineno, x.col_offset) > (s.lineno, s.col_offset):
-                                late = True
-                    if late:
+                    if b is not cfunc.body and not all(any(u is x for x in tail) for u in uses):
                         continue
                     cand = (b, i, s, t)
                     break
@@ -497,6 +515,46 @@ def _single_tail_return(g):
     return None
 
 
+def _has_return(stmts):
+    return any(isinstance(n, ast.Return) for s in stmts for n in ast.walk(s))
+
+
+def _convert_returns(stmts, mk):
+    """statement list with guard-style early returns -> equivalent list without `return`, where mk(value) builds the statement that
+    delivers the result (assignment to the call's target / expression statement / a real return).  None when a return sits in a position
+    this conversion does not cover (inside a loop, a try, a with, or an `if` whose arms do not both end the function)."""
+    out = []
+    for i, s in enumerate(stmts):
+        if isinstance(s, ast.Return):
+            out += mk(s.value if s.value is not None else ast.Constant(value=None))
+            return out
+        if not _has_return([s]):
+            out.append(s)
+            continue
+        if not isinstance(s, ast.If):
+            return None
+        rest = stmts[i + 1:]
+        ends_b = bool(s.body) and isinstance(s.body[-1], ast.Return)
+        ends_o = bool(s.orelse) and isinstance(s.orelse[-1], ast.Return)
+        if ends_b and not s.orelse:
+            b = _convert_returns(s.body, mk)
+            o = _convert_returns(rest, mk) if rest else mk(ast.Constant(value=None))
+        elif ends_b and ends_o:
+            b = _convert_returns(s.body, mk)
+            o = _convert_returns(s.orelse, mk)
+        elif ends_b and s.orelse and not _has_return(s.orelse):
+            b = _convert_returns(s.body, mk)
+            o = _convert_returns(list(s.orelse) + rest, mk) if rest else list(s.orelse) + mk(ast.Constant(value=None))
+        else:
+            return None
+        if b is None or o is None:
+            return None
+        out.append(ast.copy_location(ast.If(test=s.test, body=b or [ast.Pass()], orelse=o), s))
+        return out
+    out += mk(ast.Constant(value=None))
+    return out
+
+
 def inline_new_helpers(func, helpers, counter):
     """`t = h(args)` / `h(args)` / `return h(args)` with h a module-level function of the current module that the reference module does not
     define, h straight (one return, at the end), no recursion: the call statement is replaced by h's body with fresh local names.
@@ -519,6 +577,9 @@ def inline_new_helpers(func, helpers, counter):
                         continue
                     g = helpers[call.func.id]
                     ret = _single_tail_return(g)
+                    if ret is None and not any(isinstance(n_, SCOPES) and n_ is not g for n_ in ast.walk(g)) and \
+                            _convert_returns([x for x in g.body], lambda v: []) is not None:
+                        ret = ast.Constant(value=Ellipsis)      # marker: structured conversion needed
                     a = g.args
                     if ret is None or a.vararg or a.kwarg or a.kwonlyargs or a.posonlyargs or any(isinstance(x, ast.Starred) for x in call.args) \
                             or any(k.arg is None for k in call.keywords) or len(call.args) > len(a.args):
@@ -544,6 +605,15 @@ def inline_new_helpers(func, helpers, counter):
         argnames = {x.id for a_ in list(call.args) + [k.value for k in call.keywords] for x in ast.walk(a_) if isinstance(x, ast.Name)}
         if target and isinstance(ret2, ast.Name) and ret2.id in names and target not in argnames - {target}:
             ren[ret2.id] = target        # the returned local takes the caller's name directly
+        # a parameter that is never rebound and receives a plain name is that name (alias): no fresh symbol needed
+        rebound = {x.id for x in ast.walk(g2) if isinstance(x, ast.Name) and isinstance(x.ctx, (ast.Store, ast.Del))}
+        opn = [x.arg for x in g2.args.args]
+        for k_, av in enumerate(call.args):
+            if isinstance(av, ast.Name) and k_ < len(opn) and opn[k_] not in rebound and ren.get(opn[k_]) == opn[k_] + sfx:
+                ren[opn[k_]] = av.id
+        for kw in call.keywords:
+            if kw.arg in opn and isinstance(kw.value, ast.Name) and kw.arg not in rebound and ren.get(kw.arg) == kw.arg + sfx:
+                ren[kw.arg] = kw.value.id
         _Rename(ren, set()).visit(g2)
         for x in ast.walk(g2):
             if isinstance(x, ast.arg) and x.arg in ren:
@@ -571,7 +641,16 @@ def inline_new_helpers(func, helpers, counter):
             helpers = {k_: v_ for k_, v_ in helpers.items() if k_ != g.name}
             continue
         body = [x for x in g2.body if not (isinstance(x, ast.Expr) and isinstance(x.value, ast.Constant))]
-        if body and isinstance(body[-1], ast.Return):
+        structured = isinstance(ret, ast.Constant) and ret.value is Ellipsis
+        if structured:
+            if isinstance(s, ast.Assign):
+                mk = lambda v: [ast.Assign(targets=[ast.Name(id=target, ctx=ast.Store())], value=v, lineno=s.lineno)]
+            elif isinstance(s, ast.Return):
+                mk = lambda v: [ast.Return(value=v)]
+            else:
+                mk = lambda v: ([ast.Expr(value=v)] if isinstance(v, ast.Call) else [])
+            body = _convert_returns(body, mk)
+        elif body and isinstance(body[-1], ast.Return):
             body = body[:-1]
         for x in body:
             for y in ast.walk(x):
@@ -580,7 +659,9 @@ def inline_new_helpers(func, helpers, counter):
                     y.end_lineno = s.lineno
         tail = []
         rv = _single_tail_return(g2) if g2.body and isinstance(g2.body[-1], ast.Return) else ast.Constant(value=None)
-        if isinstance(s, ast.Assign):
+        if structured:
+            pass
+        elif isinstance(s, ast.Assign):
             if not (isinstance(rv, ast.Name) and rv.id == target):
                 tail = [ast.copy_location(ast.Assign(targets=[ast.Name(id=target, ctx=ast.Store())], value=rv, lineno=s.lineno), s)]
         elif isinstance(s, ast.Return):
@@ -615,7 +696,15 @@ def canonicalise_module(short, tree):
         return {}
     ref = reference_functions(short)
     log = {}
-    helpers = {n.name: n for n in tree.body if isinstance(n, ast.FunctionDef) and n.name not in ref and not n.decorator_list} if ref else {}
+    def _plain(n):
+        # undecorated, or compiled by numba without options that change arithmetic (a jitted helper called from a jitted caller is
+        # inlined by numba as well)
+        for d in n.decorator_list:
+            t = ast.unparse(d)
+            if not (t.startswith(("numba.njit", "njit", "numba.jit", "jit")) and "fastmath" not in t and "parallel" not in t):
+                return False
+        return True
+    helpers = {n.name: n for n in tree.body if isinstance(n, ast.FunctionDef) and n.name not in ref and _plain(n)} if ref else {}
     counter = [0]
     for n in tree.body:
         if isinstance(n, ast.FunctionDef):
